@@ -297,9 +297,15 @@ def check_text(case, ctx):
 def filetext_cases(draw, tier):
     lines = []
     for _ in range(draw(st.integers(0, 4))):
-        mode = draw(st.integers(0, 2))
+        mode = draw(st.integers(0, 3))
         if mode == 0:
             lines.append(draw(st.text(alphabet=FORMAT_ALPHABET.replace("\n", ""), max_size=25)))
+        elif mode == 3:
+            # the lines a hand-edited file is full of: blank ones of every length, comments (also indented), lone
+            # delimiters, a name with nothing after it
+            lines.append(draw(st.sampled_from(["", " ", "  ", "   ", "    ", "\t", "\t\t\t", " \t  ", "%", "% c", "%%%",
+                                               "  % indented", "[", "]", "[]", "{}", "[[]]", "[{}]", "r1 :", ":", " : ",
+                                               "r1 : []", "[ ]", "[,]", ",,,"])))
         else:
             kind, r = draw(rt_rankings(max_n=4))
             lines.append(render(r, draw(st.sampled_from(["braces", "brackets"])), draw(st.sampled_from(["none", "name"]))))
